@@ -55,6 +55,8 @@ template <template <class...> class Graph, typename EdgeLabel>
 Path findPathToVertexFromPredecessors(
     const Graph<EdgeLabel> &graph, VertexIndex source, VertexIndex destination,
     const Predecessors &distancesPredecessors) {
+    assertVertexInRange(graph, source);
+    assertVertexInRange(graph, destination);
     if (source == destination)
         return {source};
 
@@ -87,6 +89,8 @@ template <template <class...> class Graph, typename EdgeLabel>
 MultiplePaths findMultiplePathsToVertexFromPredecessors(
     const Graph<EdgeLabel> &graph, VertexIndex source, VertexIndex destination,
     const MultiplePredecessors &distancesPredecessors) {
+    assertVertexInRange(graph, source);
+    assertVertexInRange(graph, destination);
     if (source == destination)
         return {{source}};
 
